@@ -186,6 +186,9 @@ type foundViolation struct {
 	Index    int             `json:"index"`
 	V        Violation       `json:"v"`
 	Scenario json.RawMessage `json:"scenario"`
+	W        int             `json:"w"`
+	NW       int             `json:"nw"`
+	Tier     string          `json:"tier"`
 }
 
 type workerResult struct {
@@ -264,7 +267,7 @@ func runWorker(p Prop, seed uint64, tier string, w, nw int, from, to int, outPat
 		for _, v := range vs {
 			res.ClassCount[v.Class+"|"+v.Signature]++
 			if res.ClassCount[v.Class+"|"+v.Signature] <= 2 && len(res.Violations) < maxStoredViolationsPerWorker {
-				res.Violations = append(res.Violations, foundViolation{Index: i, V: v, Scenario: sc.JSON()})
+				res.Violations = append(res.Violations, foundViolation{Index: i, V: v, Scenario: sc.JSON(), W: w, NW: nw, Tier: tier})
 			}
 		}
 	}
